@@ -241,6 +241,7 @@ func fatal(format string, a ...interface{}) {
 var stackClass = map[[32]uintptr]bool{}
 
 func busyGoroutines() int {
+	self := callerIsHot()
 	var recs []runtime.StackRecord
 	for n := runtime.NumGoroutine() + 64; ; n *= 2 {
 		recs = make([]runtime.StackRecord, n)
@@ -254,17 +255,21 @@ func busyGoroutines() int {
 	for i := range recs {
 		b, seen := stackClass[recs[i].Stack0]
 		if !seen {
-			async, delayed, sleep, park := false, false, false, false
+			// at work: any goroutine with a frame of the lottery / package publication path of the ceremony (a goroutine started by a
+			// go statement begins in a compiler-made wrapper named after the function that contains the statement -
+			// handleFlipLotteryPeriod.gowrapN, asyncFlipLotteryCalculations.gowrapN - and shows nothing but that wrapper until it has
+			// run) that is not blocked in the virtual clock's Sleep (a zero draw only yields there)
+			hot, sleep, park := false, false, false
 			frames := runtime.CallersFrames(recs[i].Stack())
 			for {
 				fr, more := frames.Next()
 				switch {
-				case strings.HasSuffix(fr.Function, ".asyncFlipLotteryCalculations"):
-					async = true
-				case strings.HasSuffix(fr.Function, ".delayedFlipPackageBroadcast"):
-					delayed = true
+				case strings.Contains(fr.Function, "asyncFlipLotteryCalculations"), strings.Contains(fr.Function, ".handleFlipLotteryPeriod."),
+					strings.Contains(fr.Function, "delayedFlipPackageBroadcast"), strings.Contains(fr.Function, "broadcastPrivateFlipKeysPackage"),
+					strings.Contains(fr.Function, "tryToBroadcastFlipKeysPackage"), strings.Contains(fr.Function, "calculateCeremonyCandidates"):
+					hot = true
 				case strings.Contains(fr.Function, "vclock.(*Clock).Sleep"):
-					sleep = true // a zero draw only yields inside Sleep: parked means blocked there
+					sleep = true
 				case fr.Function == "runtime.gopark":
 					park = true
 				}
@@ -272,14 +277,30 @@ func busyGoroutines() int {
 					break
 				}
 			}
-			b = async || (delayed && !(sleep && park))
+			b = hot && !(sleep && park)
 			stackClass[recs[i].Stack0] = b
 		}
 		if b {
 			busy++
 		}
 	}
-	return busy
+	return busy - self
+}
+
+// the driver's own goroutine runs publication code too (shim steps, block handlers): it does not wait for itself
+func callerIsHot() int {
+	pcs := make([]uintptr, 64)
+	frames := runtime.CallersFrames(pcs[:runtime.Callers(2, pcs)])
+	for {
+		fr, more := frames.Next()
+		if strings.Contains(fr.Function, "broadcastPrivateFlipKeysPackage") || strings.Contains(fr.Function, "tryToBroadcastFlipKeysPackage") ||
+			strings.Contains(fr.Function, "calculateCeremonyCandidates") || strings.Contains(fr.Function, "delayedFlipPackageBroadcast") {
+			return 1
+		}
+		if !more {
+			return 0
+		}
+	}
 }
 
 // settle waits (on progress of the node's own goroutines, bounded generously; a time-out means the harness cannot go on:
